@@ -168,7 +168,12 @@ C06Run(c, o, vOK, tag, r0) ==
         \E ch \in ChoiceSpace(c), pl \in Policies :
            QueryMatches(c, [cancelAt |-> 0, choice |-> ch, pol |-> pl, dev |-> D, exm |-> FALSE], o)
       DevExplains(par) == ExplainsExists(par) /\ QueryUnder(par.dev)
-      existsDev == ~existsOK /\ \E par \in AllDevPars : DevExplains(par)
+      (* ... and the deviation must be needed: an Exists that the intended rules *)
+      (* produce as well (the failure lies in its relation to the other entry    *)
+      (* points) is not explained by a deviation that has no bearing on it       *)
+      PlainPars == ParSpace(c) \cup [cancelAt : {0}, choice : ChoiceSpace(c), pol : Policies, dev : {{}}, exm : {TRUE}]
+      NeedDev == ~\E par \in PlainPars : ExplainsExists(par)
+      existsDev == ~existsOK /\ NeedDev /\ \E par \in AllDevPars : DevExplains(par)
       existsSkip == \E par \in AllDevPars : Eval(c, par).err = "opaque"    \* the deviating rules decline: not decided
   IN (IF firstOK THEN {} ELSE {"C06.first" \o tag})
      \cup (IF existsOK THEN {}
